@@ -689,6 +689,41 @@ Section ScopeProofs.
   Qed.
 End ScopeProofs.
 
+(** * a refused rule leaves no trace *)
+Section Rejection.
+  Variable V : Type.
+  Variable ltb veqb : V -> V -> bool.
+  Variable mean : list V -> V.
+  Variable L U : V.
+  Variable indep_default : bool.
+  Notation assign_rule := (assign_rule V ltb veqb mean L U indep_default).
+  Notation tol := (assign_rule_tol V ltb veqb mean L U indep_default).
+  Notation tols := (assign_rules_tol V ltb veqb mean L U indep_default).
+
+  (** all-or-nothing: an independent rule is refused as soon as ANY covered cell (not only the first
+      one visited) ends up with lower > upper, and then nothing is assigned *)
+  Lemma assign_indep_all_or_nothing : forall (r : srule V) (t1 t2 : table V) c s nid,
+    covers (ru_scope r) c = true -> new_stg V ltb veqb mean L U r (nid + length (filter (fun cs => covers (ru_scope r) (fst cs)) t1)) [s] = None ->
+    assign_indep V ltb veqb mean L U r (t1 ++ (c, s) :: t2) nid = None.
+  Proof.
+    intros r. induction t1 as [|[c0 s0] t1 IH]; intros t2 c s nid Hc Hn; simpl in *.
+    - rewrite Hc. rewrite Nat.add_0_r in Hn. rewrite Hn. reflexivity.
+    - destruct (covers (ru_scope r) c0) eqn:E0; simpl in *.
+      + destruct (new_stg V ltb veqb mean L U r nid [s0]); auto.
+        rewrite (IH t2 c s (S nid) Hc); auto. replace (S nid + length (filter (fun cs => covers (ru_scope r) (fst cs)) t1))
+          with (nid + S (length (filter (fun cs => covers (ru_scope r) (fst cs)) t1))) by lia. exact Hn.
+      + rewrite (IH t2 c s nid Hc Hn). reflexivity.
+  Qed.
+
+  Theorem rejected_rule_no_trace : forall rs1 r rs2 tn,
+    assign_rule r (tols rs1 tn) = None ->
+    tols (rs1 ++ r :: rs2) tn = tols (rs1 ++ rs2) tn.
+  Proof.
+    intros rs1 r rs2 tn H. unfold assign_rules_tol. rewrite !fold_left_app. simpl.
+    unfold assign_rule_tol at 2. fold (tols rs1 tn). rewrite H. reflexivity.
+  Qed.
+End Rejection.
+
 (** a decision procedure for [boxes] *)
 Definition boxesb (V : Type) (t : table V) : bool :=
   let ids := group_ids V false t in
